@@ -138,7 +138,7 @@ func checkJSVersion(c Case) (out string, err error) {
 			return out, fmt.Errorf("HARNESS: %v", e)
 		}
 		if r2.Status != "ok" {
-			return out, fmt.Errorf("Version=%d KeepVarNames=%v: the output is rejected by V8\n--- input:\n%s\n--- output:\n%s", c.Opts.JSVersion, c.Opts.JSKeepVars, c.Src, out)
+			return out, fmt.Errorf("Version=%d KeepVarNames=%v: the output is rejected by V8 (%s)\n--- input:\n%s\n--- output:\n%s", c.Opts.JSVersion, c.Opts.JSKeepVars, strings.SplitN(r2.Obs, "\n", 2)[0], c.Src, out)
 		}
 	}
 	return out, nil
@@ -652,7 +652,16 @@ func TestCampaignGenerated(t *testing.T) {
 	})
 }
 
-func matchKnown(c Case, err error) string { return "" }
+func matchKnown(c Case, err error) string {
+	if err == nil {
+		return ""
+	}
+	// names kept: a block after if(..){..}else{..jump} is dissolved into the enclosing scope with its let/const/class
+	if c.Check == "js-version" && c.Opts.JSKeepVars && strings.Contains(err.Error(), "rejected by V8") && strings.Contains(err.Error(), "has already been declared") && strings.Contains(c.Src, "else") {
+		return "C16-else-unscope-keepnames"
+	}
+	return ""
+}
 
 func TestReplay(t *testing.T) {
 	defer jsrun.Default.Close()
